@@ -99,7 +99,7 @@ where
     None
 }
 
-fn collections_differ(resp: &Response) -> Option<String> {
+pub fn collections_differ(resp: &Response) -> Option<String> {
     let show_ref = |x: Result<&Frame, &mpd_protocol::response::Error>| match x {
         Ok(f) => frame_brief(f),
         Err(e) => format!("E{}", e.code),
